@@ -123,15 +123,16 @@ def _num_shards_src(fn, operand):
     return (s.kind == "path" and s.fields[-1:] == ("num_shards",)) or (s.kind == "path" and s.root == "num_shards")
 
 
-def _bucket_keys_from_hash(fn):
-    """all HashMap<usize,_>::entry(k) calls in fn take k from hash_key*"""
+def _bucket_keys_from_hash(fn, prog=None):
+    """all HashMap<usize,_>::entry(k) calls in fn (and in its closures: the fill loop may be a `for_each`) take k from hash_key*"""
     n = 0
-    for b, t in fn.calls():
-        if is_callee(t, r"HashMap::<usize, .*>::entry$"):
-            n += 1
-            k = src_of_operand(fn, t["args"][1])
-            if not (k.kind == "call" and is_callee(k.term, r"sharded_actor::hash_key(_bytes)?$")):
-                return False
+    for g in (prog.with_children(fn) if prog is not None else [fn]):
+        for b, t in g.calls():
+            if is_callee(t, r"HashMap::<usize, .*>::entry$"):
+                n += 1
+                k = src_of_operand(g, t["args"][1])
+                if not (k.kind == "call" and is_callee(k.term, r"sharded_actor::hash_key(_bytes)?$")):
+                    return False
     return n > 0
 
 
@@ -208,11 +209,11 @@ def _classify_index(prog, f, i, b, ck, key):
     elif i.kind == "call" and is_callee(i.term, r"Enumerate<.*> as std::iter::Iterator>::next$") and i.fields[-2:] == ("0", "0"):
         ok, why = _direct_enumerate(f, i.term)
     elif i.kind == "call" and is_callee(i.term, r"hash_map::(IntoIter|Iter)<.*> as std::iter::Iterator>::next$"):
-        ok = _bucket_keys_from_hash(f)
+        ok = _bucket_keys_from_hash(f, prog)
         why = "bucket map keys are not all produced by hash_key"
     elif i.kind == "path" and f.kind == "closure" and i.local == 2 and i.fields[:1] == ("0",):
         par = prog.fns.get(f.parent)
-        ok = par is not None and _bucket_keys_from_hash(par)
+        ok = par is not None and _bucket_keys_from_hash(par, prog)
         why = "closure maps over buckets whose keys are not all produced by hash_key"
     elif i.kind == "const" and i.text == "0_usize":
         ok = False
